@@ -191,6 +191,30 @@ static std::vector<Plan> c18_scenarios(bool thorough) {
         { Op e = mkop(OP_EMIT, 20, {1, -1, 0, 25, -1, 0}); Bytes d = {0, 1}; d.insert(d.end(), a.mac.a, a.mac.a + 6); d.insert(d.end(), {9, 9, 9, 9, 9, 9}); e.blob = d; p.ops.push_back(e); }
         out.push_back(p);
     }
+    // two interfaces, the second one seen for the first time (its per-interface state is allocated then) while the first is in the
+    // middle of a session with properties cached: the fault hits interface B, the oracles watch A as well
+    for (int s = 12; s < (thorough ? 15 : 13); s++) {
+        Plan p;
+        p.prop = "C18"; p.family = s; p.seed = 1800 + s; p.t0 = 7000 + 1000 * s; p.mac_seed = 0xC18 + s; p.memfill = s % 2 ? 0xFE : 0xA5; p.memfill_seed = 99 + s;
+        p.latency = 1; p.twin = true; p.tail_ms = 600; p.isolate = true; // two segments: what A transmits does not reach B
+        for (int k = 0; k < 2; k++) { NodeCfg n; n.glue = (s == 14 && k == 0) ? GLUE_DARWIN : (s == 13 ? GLUE_LEGACY : GLUE_BARE); n.mtu = k ? 1500 : MT[s - 12]; n.attr_seed = 4300 + s * 7 + k; n.wifi = k == 1; n.rxfill = 0; p.nodes.push_back(n); }
+        auto only = [](Op o, int node) { o.only = node; return o; };
+        p.ops.push_back(only(mkop(OP_DISCOVER, 5, {0, -1, 0, 0x1001 + s, 3, 0, 0, 0}), 0));
+        p.ops.push_back(mkop(OP_QLT, 10, {0, -1, 0, 10, 0x0E, 0, 0}));
+        p.ops.push_back(mkop(OP_QLT, 10, {0, -1, 0, 11, 0x11, 0, 0}));
+        p.ops.push_back(mkop(OP_FLOOD, 10, {3, 3000, 0, 0, 0}));
+        p.ops.push_back(only(mkop(OP_DISCOVER, 20, {0, -1, 0, 0x1001 + s, 4, 0, 0, 0}), 1)); // B's first frame ever
+        p.ops.push_back(mkop(OP_QLT, 10, {0, -1, 1, 12, 0x0E, 0, 0}));
+        p.ops.push_back(mkop(OP_QLT, 10, {0, -1, 0, 13, 0x0E, 100, 0}));
+        p.ops.push_back(mkop(OP_QUERY, 10, {0, -1, 0, 14, 0}));
+        p.ops.push_back(mkop(OP_QLT, 10, {0, -1, 1, 15, 0x11, 0, 0}));
+        p.ops.push_back(mkop(OP_RESET, 30, {0, -1, 0, 0, 0, 0}));
+        p.ops.push_back(mkop(OP_DISCOVER, 20, {1, -1, 0, 0x5005, 21, 0, 0, 0}));
+        p.ops.push_back(mkop(OP_QLT, 10, {1, -1, 0, 23, 0x0E, 0, 0}));
+        p.ops.push_back(mkop(OP_QLT, 10, {1, -1, 1, 24, 0x0E, 0, 0}));
+        p.ops.push_back(mkop(OP_QLT, 10, {1, -1, 0, 25, 0x11, 0, 0}));
+        out.push_back(p);
+    }
     // constructor scenario
     Plan c;
     c.prop = "C18"; c.family = 100; c.seed = 1899; c.t0 = 9000; c.api_world = false; c.tail_ms = 10;
